@@ -15,6 +15,7 @@ import (
 	"go/token"
 	"go/types"
 	"sort"
+	"strings"
 
 	"golang.org/x/tools/go/ssa"
 )
@@ -85,6 +86,9 @@ type Interp struct {
 	instr func(in ssa.Instruction, depth int)
 
 	globals map[*ssa.Global]any // package-level variables written during the evaluation (package initialisers)
+	// useGlobals: loads of module package-level variables that are never written after initialisation yield the
+	// value the package initialiser builds (evalGlobals)
+	useGlobals bool
 
 	dirty   bool
 	stopped bool
@@ -281,6 +285,15 @@ func (ip *Interp) runClosure(fn *ssa.Function, args []any, binds []any, depth in
 						if v, ok := ip.load(x, ip.dirty); ok {
 							env[x] = v
 							continue
+						}
+					}
+					if g, isG := x.X.(*ssa.Global); isG && ip.useGlobals && ip.globals == nil && g.Pkg != nil && strings.HasPrefix(g.Pkg.Pkg.Path(), modPath) {
+						sp := shortPkg(g.Pkg.Pkg.Path())
+						if ip.m.globalMapWritten(sp, g.Name()) == "" {
+							if v, ok := ip.m.evalGlobals(sp)[g.Name()]; ok && v != nil {
+								env[x] = v
+								continue
+							}
 						}
 					}
 					delete(env, x)
